@@ -52,6 +52,7 @@ func c12ProfileParams(name string, p Profile) [][3]string {
 func TestVerifC12(t *testing.T) {
 	params := [][3]string{
 		{"c12_minBps", "Z", strconv.Itoa(minBps)},
+		{"c12_BytesPerSecond", "Z", strconv.FormatUint(uint64(BytesPerSecond), 10)}, // Bandwidth units (bits/s) per byte/s
 		{"c12_invalidPacketNumber", "Z", strconv.Itoa(invalidPacketNumber)},
 		{"c12_initialCongestionWindowPackets", "Z", strconv.Itoa(initialCongestionWindowPackets)},
 		{"c12_minCongestionWindowPackets", "Z", strconv.Itoa(minCongestionWindowPackets)},
